@@ -7,6 +7,7 @@ import (
 	"net"
 	"sort"
 	"strings"
+	"sync"
 	"time"
 
 	"github.com/codelaboratoryltd/bng/pkg/allocator"
@@ -298,6 +299,7 @@ type call struct {
 }
 
 type schedState struct {
+	mu    sync.Mutex // harness bookkeeping only (needed by the free-running -race pass)
 	p     *cpool
 	calls []*call
 	fill  []string
@@ -353,7 +355,9 @@ func (sc scen) scenario(cl Clauses) *sched.Scenario {
 				x.Thread(fmt.Sprintf("T%d", ti), func() {
 					for _, op := range ops {
 						c := &call{th: ti, op: op}
+						st.mu.Lock()
 						st.calls = append(st.calls, c)
+						st.mu.Unlock()
 						c.res = doOp(st, op)
 						x.Obs("T%d:%s=%s", ti, op, c.res)
 					}
@@ -559,6 +563,24 @@ func AllocVsReleaseSameSub(tr []string) bool {
 }
 
 // RunSched explores every Engine B scenario under the given clauses.
+// RacePass is the separate free-running pass (built with -race by bin/check in the thorough tier): the same scenario
+// bodies on real goroutines and real locks, many rounds each. It returns the number of executions and the first
+// end-state invariant failures (known-finding classes are not filtered here: only data races fail the pass).
+func RacePass(cl Clauses, rounds int) (int, []string) {
+	n := 0
+	var bad []string
+	for _, sc := range scenarios(true) {
+		for r := 0; r < rounds; r++ {
+			x := sched.RunFree(sc.scenario(cl))
+			if vs := checkSched(sc, x.Data.(*schedState), cl); len(vs) > 0 && len(bad) < 5 {
+				bad = append(bad, fmt.Sprintf("%s: %v", sc.part(), vs[0]))
+			}
+			n++
+		}
+	}
+	return n, bad
+}
+
 func RunSched(run *report.Run, cl Clauses, classify func(*report.Violation)) {
 	bound := 2
 	if run.Thorough() {
